@@ -25,6 +25,14 @@ utf8dec = z3.Function("utf8dec", Bsort, Ssort)          # bytes.decode() when va
 valid_utf8 = z3.Function("valid_utf8", Bsort, z3.BoolSort())
 encodable = z3.Function("encodable", Ssort, z3.BoolSort())  # no lone surrogates
 ulen = z3.Function("ulen", Ssort, I)                     # len(s.encode())
+clen = z3.Function("clen", Ssort, I)                     # len(s): number of code points
+isascii = z3.Function("isascii", Ssort, z3.BoolSort())   # s.isascii()
+
+
+def str_facts(t):
+    """relations between the abstract measures of a string: code points vs UTF-8 bytes (1..4 bytes per code point; exactly
+    one per code point iff the string is ASCII)"""
+    return [clen(t) >= 0, clen(t) <= ulen(t), ulen(t) <= 4 * clen(t), isascii(t) == (ulen(t) == clen(t))]
 
 
 class Undecided(Exception):
